@@ -167,6 +167,32 @@ func parkOpt(label string, enabled func() bool, alts int, idle bool) int {
 	return p.choice
 }
 
+// ReportPanic records a panic recovered at the top of a goroutine spawned by
+// the instrumented library (the goroutine then ends instead of taking the
+// process down). The harness reads the reports with Panics.
+func ReportPanic(v any) {
+	buf := make([]byte, 4096)
+	buf = buf[:runtime.Stack(buf, false)]
+	msg := fmt.Sprintf("goroutine spawned by the library panicked: %v\n%s", v, buf)
+	panicMu.Lock()
+	panics = append(panics, msg)
+	panicMu.Unlock()
+}
+
+// TakePanics returns and clears the recorded library-goroutine panics.
+func TakePanics() []string {
+	panicMu.Lock()
+	defer panicMu.Unlock()
+	out := panics
+	panics = nil
+	return out
+}
+
+var (
+	panicMu sync.Mutex
+	panics  []string
+)
+
 // Snapshot returns the parked goroutines sorted by name. Call at quiescence.
 func (s *Sched) Snapshot() []*Parked {
 	s.mu.Lock()
